@@ -58,7 +58,7 @@ def registry_rules(prog, res: Result):
             d = I.models.call(TERM, [TupleV([TupleV([base, Num(RF.const(2), "int")])])], {}, None)
             x1 = ObjV(None, "item1", {"normalized_definition": d})
             x2 = ObjV(None, "item2", {"normalized_definition": d})
-            reg = ObjV(reg_ci, "registry", {"_unique_items": BoolV(unique), "_item_def_map": DictV(), "_item_list": ListV([])})
+            reg = I.models.instantiate(reg_ci, [], {"unique_items": BoolV(unique)}, None)
             ri = prog.method("DefinedItemRegistry", "register_item")
             i1 = I.call_function(ri, [reg, x1], {})
             i1b = I.call_function(ri, [reg, x1], {})
